@@ -42,6 +42,11 @@ def r1(ctx, F, hub):
         # request path is the directory itself ("", ".", "./")
         climbs = SIBLING in labels and c != 'std::fs::create_dir_all'
         labels2 = labels - {SIBLING}
+        if OTHER in labels and TAINT not in labels and not climbs:
+            # part of the value has a provenance the labelling does not follow (a struct mutated through a helper, a value
+            # from outside the serve graph): nothing client-controlled was seen in it, nothing proves it clean either
+            ctx.undecided('C11.R1', '%s: a path of unknown provenance reaches %s (labels %s)' % (key, c.split('::')[-1], sorted(labels)))
+            continue
         ctx.check(not bad and bool(labels2) and not climbs, 'C11.R1', key, 'path labels %s' % sorted(labels),
                   'fs call %s receives a path that is %s' % (c, 'client-controlled without passing safe_join' if TAINT in labels else
                                                             'built with parent()/with_file_name()/with_extension() from a request path: for a request that names the served '
